@@ -195,6 +195,12 @@ func (w *W) Cap(s string) {
 func (w *W) Fail(key, what string, cs any) {
 	if v, ok := w.vio[key]; ok {
 		v.Count++
+		// keep the smallest of the first few cases as the counterexample
+		if v.Count <= 64 {
+			if raw, err := json.Marshal(cs); err == nil && len(raw) < len(v.Case) {
+				v.Case, v.What = raw, what
+			}
+		}
 		return
 	}
 	raw, err := json.Marshal(cs)
